@@ -92,6 +92,17 @@ LOOKALIKES = [0, False, 0.0, 1, True, 1.0, "", [], {}, None, "0", "1", [0],
               [False], [1], [True], {"a": 1}, {"a": True}, {"a": 0},
               {"a": False}, [[1]], [[True]]]
 
+def counted_strings(n):
+    """Strings of exactly n code points whose length under other measures differs: combining sequences (NFC
+    shortens), characters that NFC expands, astral characters (2 UTF-16 units), wide UTF-8."""
+    if n <= 0:
+        return [""]
+    out = ["\U0001f600" * n, "\u65e5" * n, "\u0958" * n]
+    if n >= 2:
+        out += ["e\u0301" * (n // 2) + "a" * (n % 2), "\u1100\u1161" * (n // 2) + "a" * (n % 2)]
+    return out
+
+
 ints = st.one_of(st.sampled_from(INTS), st.integers(-20, 20))
 dyadic = st.one_of(
     st.sampled_from(FLOATS), st.integers(-80, 80).map(lambda k: k / 8)
